@@ -1182,6 +1182,21 @@ func c05AccountRoot(c C) {
 		return false
 	}
 	c.MustPass("state.(*stateObject).updateRoot", "root-recomputed-on-every-path", ir.Entry(ur), ir.IsReturn, isStore, nil, "every path through updateRoot recomputes data.Root (no reuse of the persisted, mode-specific root)")
+	// ... and Finalise calls it for EVERY live dirty account, whether or not the account has pending storage
+	// writes: an account that only changed its balance still carries the root it was LOADED with, which is
+	// the mode-dependent one
+	fin := p.Func("state", "StateDB.Finalise")
+	for _, call := range ir.Calls(fin, "state.stateObject.updateRoot") {
+		fs := ir.FactsAt(call.(ssa.Instruction))
+		var extra []string
+		for _, a := range fs {
+			if strings.Contains(a.Atom, "dirtyStorage") || strings.Contains(a.Atom, "originStorage") || strings.Contains(a.Atom, ".data.Root") {
+				extra = append(extra, a.Atom)
+			}
+		}
+		r.Check("K2", "state.(*StateDB).Finalise/root-recomputed-for-every-live-account", p.InstrPos(call.(ssa.Instruction)), len(extra) == 0, fmt.Sprintf("updateRoot is not conditioned on the account's storage: %v", extra))
+	}
+	c.MustFind("K2", "state.(*StateDB).Finalise/updateRoot", fin, len(ir.Calls(fin, "state.stateObject.updateRoot")), "updateRoot call in Finalise")
 	c.MustPass("state.(*stateObject).updateRoot", "pending-writes-applied-first", ir.Entry(ur), isStore, ir.CallMatcher("state.stateObject.updateTrie"), nil, "the pending storage writes are applied to the trie before it is hashed")
 }
 
